@@ -20,7 +20,17 @@ PROPS_MODULES = ['C17']
 ASSUMPTIONS = ['channel -> message type mappings hold MessageType tokens (what the API documents)',
                'a Python bool offered as a value of a NUMBER enumeration is not judged (isinstance(True, int) holds in Python; whether that '
                'is "the wrong kind" is left open)']
-TYV = {BOOL: 1, NUM: 2, STR: 4}
+from schema import TY as TYV  # kind -> value of the live DataType member
+
+
+def _declared(d):
+    """numeric value of the DataType member a schema denotation declares (live numbering of /repo)"""
+    from hpl.types import DataType
+    if d[0] == 'arr':
+        return int(DataType.ARRAY.value)
+    if d[0] == 'msg':
+        return int(DataType.MESSAGE.value)
+    return TYV[d[2]]
 
 
 # ---- reference chains in Raw trees ---------------------------------------------------------------------------------
@@ -108,7 +118,7 @@ def oracle_expr(e, this_d, alias_d, problems):
     if d is None:
         problems.append(('unresolved', str(e)))
         return
-    declared = {'prim': None, 'arr': 8, 'msg': 64}[d[0]] or TYV[d[2]]
+    declared = _declared(d)
     if not (int(e.data_type.value) & declared):
         problems.append(('type', str(e)))
     if e.is_indexed and e.index.is_value and e.index.is_literal:
